@@ -20,6 +20,33 @@ package keeper
 //@ decabstract
 //@ ensures C02/total-shares-track-supply: shareGap(ctx, p) == old(shareGap(ctx, p))
 //@ ensures C01/each-swap-works-on-a-pool-just-read: true
+// Used by contract in the two collection functions below (C13): the conversion swaps are made by and
+// for the fee account itself; that they leave the reward module's own balance alone is ASSUMED here (the
+// swap chain's per-address settlement is C04's subject).
+//@ modifies bank-balances, module:amm, module:accountedpool, module:masterchef, module:perpetual, module:tier, module:sdk-distribution
+//@ modular-for (Keeper).CollectGasFees, (Keeper).CollectPerpRevenue
+//@ forall d Str
+//@ assumed-ensures C13/converted-fees-are-valid-coins: amt(result0, d) >= 0
+//@ assumed-ensures C13/fee-conversion-leaves-the-reward-module-balance-alone: bal(ctx, modAddr("masterchef"), d) == old(bal(ctx, modAddr("masterchef"), d))
+
+// ---- C13: what is credited has been collected ------------------------------------------------------------
+// The end-block step hands the amount these functions report for the LPs to the crediting function
+// (UpdateAccPerShare); the reward module must have received at least that much, in every denom, or the
+// credited rewards are not backed.
+// The split is a validated parameter: portions are between zero and one (that the two portions together stay
+// within one is assumed: Params.Validate checks each alone).
+//@ define mcParams(ctx) := row(ctx, "masterchef:types.ParamsKey", "types.Params")
+//@ func (Keeper).CollectGasFees
+//@ decabstract
+//@ assumes mcParams(ctx).RewardPortionForLps >= 0 && mcParams(ctx).RewardPortionForStakers >= 0 && mcParams(ctx).RewardPortionForLps + mcParams(ctx).RewardPortionForStakers <= 1000000000000000000
+//@ forall d Str
+//@ ensures C13/gas-fees-reported-for-lps-are-kept-by-the-reward-module: err == nil ==> (bal(ctx, modAddr("masterchef"), d) - old(bal(ctx, modAddr("masterchef"), d))) * 1000000000000000000 + 1000000000000000000 > amt(result0, d)
+
+//@ func (Keeper).CollectPerpRevenue
+//@ decabstract
+//@ assumes mcParams(ctx).RewardPortionForLps >= 0 && mcParams(ctx).RewardPortionForStakers >= 0 && mcParams(ctx).RewardPortionForLps + mcParams(ctx).RewardPortionForStakers <= 1000000000000000000
+//@ forall d Str
+//@ ensures C13/perpetual-revenue-reported-for-lps-is-kept-by-the-reward-module: err == nil ==> (bal(ctx, modAddr("masterchef"), d) - old(bal(ctx, modAddr("masterchef"), d))) * 1000000000000000000 + 1000000000000000000 > amt(result0, d)
 
 
 // ---- C18: block processing never panics ------------------------------------------------------------------
@@ -127,3 +154,13 @@ package keeper
 //@ func (Keeper).RemovePoolRewardInfo
 //@ callers C13/accumulator-never-removed-by-module-code: 
 //@ ensures C13/pool-reward-row-removed: !prHas(ctx, poolId, rewardDenom)
+
+//@ func (Keeper).CollectDEXRevenue
+//@ decabstract
+//@ forall d Str
+//@ assumes mcParams(ctx).RewardPortionForLps >= 0 && mcParams(ctx).RewardPortionForStakers >= 0 && mcParams(ctx).RewardPortionForLps + mcParams(ctx).RewardPortionForStakers <= 1000000000000000000
+// Inductive over the pools walked (any number): whatever has been added to the LPs' total so far has been
+// kept by the reward module out of the pools' revenue wallets.
+//@ callback-invariant (Keeper).IterateLiquidityPools :: C13/lps-total-so-far-is-kept-by-the-reward-module: err == nil && (bal(ctx, modAddr("masterchef"), d) - old(bal(ctx, modAddr("masterchef"), d))) * 1000000000000000000 >= amt(amountLPsCollected, d)
+//@ callback-exit (Keeper).IterateLiquidityPools :: C13/the-walk-stops-early-only-on-an-error: err != nil
+//@ ensures C13/dex-revenue-reported-for-lps-is-kept-by-the-reward-module: err == nil ==> (bal(ctx, modAddr("masterchef"), d) - old(bal(ctx, modAddr("masterchef"), d))) * 1000000000000000000 + 1000000000000000000 > amt(result1, d)
